@@ -56,6 +56,26 @@ def scratch_base():
     return '/var/tmp'
 
 
+def sweep_stale_scratch():
+    """remove scratch directories of shard processes that no longer exist (killed runs)"""
+    import re
+    base = scratch_base()
+    try:
+        names = os.listdir(base)
+    except OSError:
+        return
+    for n in names:
+        m = re.match(r'^verif-c\d+-p(\d+)-', n)
+        if not m:
+            continue
+        try:
+            os.kill(int(m.group(1)), 0)
+        except ProcessLookupError:
+            shutil.rmtree(os.path.join(base, n), ignore_errors=True)
+        except OSError:
+            pass
+
+
 def jhash(obj):
     return hashlib.sha1(json.dumps(obj, sort_keys=True, default=str).encode()).hexdigest()[:16]
 
@@ -122,7 +142,7 @@ class Run(object):
     def scratch(self):
         if self._scratch is None:
             base = scratch_base()
-            self._scratch = tempfile.mkdtemp(prefix='verif-%s-' % self.pid.lower(), dir=base)
+            self._scratch = tempfile.mkdtemp(prefix='verif-%s-p%d-' % (self.pid.lower(), os.getpid()), dir=base)
         return self._scratch
 
     def subdir(self, name=None):
@@ -271,6 +291,7 @@ def main(mod):
         return _shard_main(mod, args)
 
     # ---- parent ------------------------------------------------------------------------------------
+    sweep_stale_scratch()
     t0 = time.time()
     pid = mod.PID
     nsh = args.jobs or getattr(mod, 'SHARDS', min(16, os.cpu_count() or 4))
